@@ -142,6 +142,7 @@ def handleMux (ts : List String) : String :=
         -- a client that joined the running stream: oracle only (Spec.checkJoined on impl=)
         let cf := frames.filter (carried src)
         let japp := codec ≠ .other && hevcFaithful vm && src.usable && known = 0 && cf.all frameOk &&
+          sps.length < 65536 && pps.length < 65536 && vps.length < 65536 && asc.length + 2 < 16777216 &&
           cf.all (fun f => cf.all (fun g => decide (tagTimeMs g - tagTimeMs f < 2147483648 ∧ tagTimeMs f - tagTimeMs g ≤ 2147483648)))
         s!"model=same dead=0 app={boolStr japp} spec={okStr (checkJoined src frames impl)} mspec=ok"
       else
